@@ -49,8 +49,12 @@ fn rebuild(
     Ok(d)
 }
 
-fn probes_of(plan: &Plan) -> Vec<String> {
-    plan.file_str("probes").split('\n').map(|s| s.to_string()).collect()
+/// Probe sentences are separated by U+0001 (they may contain line breaks); older replay files
+/// separate them by line breaks.
+pub fn probes_of(plan: &Plan) -> Vec<String> {
+    let text = plan.file_str("probes");
+    let sep = if text.contains('\u{1}') { '\u{1}' } else { '\n' };
+    text.split(sep).map(|s| s.to_string()).collect()
 }
 
 fn observe_or(prefix: &str, what: &str, d: Dictionary, probes: &[String]) -> Result<(Dictionary, Obs), Violation> {
@@ -67,12 +71,44 @@ fn gen_dict_world(rng: &mut Rng, plan: &mut Plan, n_users: usize) -> WorldInfo {
     let cfg = WorldCfg {
         huge_dim_one_in: 250,
         extreme_ids_one_in: 2500,
+        one_id_side_one_in: 40,
+        threshold_sizes_one_in: 60,
+        multiline_feature_one_in: 60,
         ..WorldCfg::default()
     };
     let info = gen_world(rng, plan, &cfg);
+    let mut extra_probes: Vec<String> = vec![];
     for i in 0..n_users {
         let mut csv = gen_user_csv(&mut rng.fork(), &info, &format!("U{i}-"));
         let mut r = rng.fork();
+        if !csv.ends_with('\n') {
+            csv.push('\n');
+        }
+        if r.chance(1, 5) {
+            // user rows that equal a system row in surface, ids and cost (only the feature
+            // differs): the two words are distinct candidates of equal cost
+            let lex = plan.file_str("lex.csv");
+            let sys_rows: Vec<&str> = lex.lines().filter(|l| !l.contains('"')).collect();
+            for k in 0..1 + r.usize(2) {
+                if let Some(row) = (!sys_rows.is_empty()).then(|| *r.pick(&sys_rows)) {
+                    let cols: Vec<&str> = row.splitn(5, ',').collect();
+                    if cols.len() == 5 {
+                        csv.push_str(&format!("{},{},{},{},UTWIN{i}-{k}\n", cols[0], cols[1], cols[2], cols[3]));
+                        extra_probes.push(format!("{0}{0}", cols[0]));
+                    }
+                }
+            }
+        }
+        if r.chance(1, 30) {
+            // a surface with a line break (CR LF) in a quoted field
+            csv.push_str(&format!(
+                "\"a\r\nb\",{},{},-300,UCRLF{i}\n",
+                r.usize(info.num_left),
+                r.usize(info.num_right)
+            ));
+            extra_probes.push("a\r\nba\r\nb".into());
+            extra_probes.push("a\nb".into());
+        }
         if r.chance(1, 150) {
             // filler rows first, so that the ordinary rows (whose surfaces the probes use) lie
             // beyond the first 64 KiB of the file
@@ -93,8 +129,9 @@ fn gen_dict_world(rng: &mut Rng, plan: &mut Plan, n_users: usize) -> WorldInfo {
         }
         plan.set_file(&format!("user{i}.csv"), csv);
     }
-    let probes = gen_probes(&mut rng.fork(), &info.surfaces, 5);
-    plan.set_file("probes", probes.join("\n"));
+    let mut probes = gen_probes(&mut rng.fork(), &info.surfaces, 5);
+    probes.extend(extra_probes);
+    plan.set_file("probes", probes.join("\u{1}"));
     info
 }
 
@@ -393,7 +430,7 @@ impl Scenario for RoundTripScenario {
     fn describe(&self) -> ScenarioInfo {
         ScenarioInfo {
             level: "exploration",
-            rule: "one seeded run = a seeded dictionary (matrix/raw/dual) and a history of 3-12 events: RoundTrip(replica) through seeded short-write/EINTR sinks and short-read/EINTR readers (adds a replica, also of a replica that is itself a round trip), LoadUser/ClearUser/Map applied to every replica, AddRebuilt (dual only: rebuild from sources under another template split and replay the history), Observe (full token tuples for probes x option sets and every id-pair connection cost must be equal across replicas), WriteAll (all round-trip replicas write identical bytes; returned count == bytes accepted), FailWrite/FailRead (hard fault at a seeded offset must give Err). distinct_nontrivial = distinct plan hashes of runs with >= 1 observation after >= 1 round trip or state change",
+            rule: "one seeded run = a seeded dictionary (matrix/raw/dual) and a history of 3-12 events: RoundTrip(replica) through seeded short-write/EINTR sinks and short-read/EINTR readers (adds a replica, also of a replica that is itself a round trip), LoadUser/ClearUser/Map applied to every replica, AddRebuilt (dual only: rebuild from sources under another template split and replay the history), Observe (full token tuples for probes x option sets and every id-pair connection cost must be equal across replicas), WriteAll (all round-trip replicas write identical bytes; returned count == bytes accepted), FailWrite/FailRead (hard fault at a seeded offset must give Err). Added later (all three scenarios of this file): 1 world in 250 with 182-300 ids per side (> 32768 matrix cells), 1 in 2500 with 65536 ids on one side, 1 in 40 with a side that has the BOS/EOS id only, 1 in 60 with 250-257 homographs of one surface and a feature of 250-252 bytes, 1 lexicon row in 60 with a line break inside a quoted feature field, 1 user lexicon in 150 larger than 64 KiB (filler rows first), 1 in 5 with rows equal to a system row in surface, ids and cost, 1 in 30 with a surface containing CR LF; mapping lists are handed over as vectors or as lazy iterators of unknown length. distinct_nontrivial = distinct plan hashes of runs with >= 1 observation after >= 1 round trip or state change",
             assumptions: vec![
                 "the seeded runs use the portable build; the portable<->AVX2 interchange is decided by the two-build exchange step of ./check (120 cases per direction in quick, 1500 in thorough; skipped with a note on CPUs without AVX2), reported under cross_build_exchange",
                 "observational equality is over seeded probe sentences and all id pairs, not all sentences",
@@ -442,7 +479,18 @@ fn bad_mapping(kind: i64, dim_l: usize, dim_r: usize, salt: u64) -> (Vec<u16>, V
     // an id beyond the range; with 65536 ids there is none: the last id once more (a repeated id
     // is invalid as well)
     let beyond = |dim: usize, plus: usize| -> u16 { u16::try_from(dim + plus).unwrap_or((dim - 1) as u16) };
-    let left_side = salt % 2 == 0;
+    // a side with the BOS/EOS id only has exactly one valid list, the empty one: it cannot be made
+    // too short or emptied, so the other side is the victim (or the list is made too long)
+    if dim_l <= 1 && dim_r <= 1 {
+        return (vec![1], vec![], "too long");
+    }
+    let left_side = if dim_l <= 1 {
+        false
+    } else if dim_r <= 1 {
+        true
+    } else {
+        salt % 2 == 0
+    };
     let mut l = idl.clone();
     let mut r = idr.clone();
     let (t, dim) = if left_side { (&mut l, dim_l) } else { (&mut r, dim_r) };
